@@ -121,6 +121,18 @@ def slice {α : Type} (xs : List α) (lo hi : Int) : Outcome (List α) :=
   if lo < 0 ∨ hi < lo ∨ (xs.length : Int) < hi then .panic "runtime error: slice bounds out of range"
   else .ok ((xs.take hi.toNat).drop lo.toNat)
 
+/-- `compare.Ordered(a, b)` = `cmp.Compare(a, b)` on integers and strings: -1, 0, +1 -/
+def cmpOrdered {α : Type} [LT α] [DecidableLT α] (a b : α) : Int :=
+  if a < b then -1 else if b < a then 1 else 0
+
+/-- the entry of `m` at `k`, or `c` when there is none (`dict.GetDefault` before the entry is stored) -/
+def getDefault {κ ν : Type} [DecidableEq κ] (m : AMap κ ν) (k : κ) (c : ν) : ν := (AMap.find? m k).getD c
+
+/-- the body of a `for … range` loop in the Outcome monad -/
+def foldlE {σ α : Type} (f : σ → α → Outcome σ) : σ → List α → Outcome σ
+  | s, [] => .ok s
+  | s, x :: rest => (f s x).bind (fun s' => foldlE f s' rest)
+
 /-- fuel for a loop whose condition starts with `a >= b` (or `!a.Before(b)`) and whose body lowers `a` -/
 def fuelGe (a b : Int) : Nat := (a - b + 1).toNat
 /-- fuel for a loop whose condition starts with `a < b` and whose body narrows the gap -/
